@@ -20,7 +20,9 @@ RULE = ("labels: every PSK order 2..2^12 / QAM order 4..4^6 / BPSK / QPSK x a "
         "62-bit values, as Python ints / int64 / int32 / 0-d arrays.  "
         "biterrors: random array pairs, shapes 0-d..3-d, each axis.  "
         "Signature = (kind, class, M, history length | dtype, shape kind, "
-        "magnitude class); non-trivial = at least one pair / integer decided.")
+        "magnitude class); non-trivial = at least one pair / integer decided.  "
+        "Bit-error operands also come in different integer widths (one narrow, "
+        "one 64-bit with values outside the narrow range). ")
 ASSUMPTIONS = ["popcount reference is Python's int.bit_count",
                "minimum-distance pairs: distance <= d_min(1+1e-9)"]
 
